@@ -13,6 +13,7 @@ LEVEL_TEXT = (
     'window with the generator half consumed, rate limit, group-updates on/off) through the real API -> RIB -> peer task -> '
     'wire path; oracle at every quiescence: reference-decoded peer table == reported Adj-RIB-Out (== intended for plain '
     'announce/withdraw). Sampling, not proof.'
+    " The universe holds the same prefix as unicast, labelled and VPN (two RDs) routes; every route a peer holds must carry the whole attribute set of the operator's variant; some plans configure an address-range neighbor (dynamic peers)."
 )
 LEVEL_NOTE = 'trusts: simulated TCP/pipe model, reference decoder (refbgp), the text of Route.extensive() for next hop / MED of the reported routes'
 DESIGN_REF = 'DESIGN.md section 5, C04'
